@@ -40,6 +40,7 @@ class Job:
     must_exhaust: bool = False  # True: an un-exhausted tree is reported as inconclusive (exit 2); default: evidence is downgraded to 'exploration'
     twin_budget: float = 60.0
     max_samples: int = 1
+    validate_limit: int = 12  # how many explored (PASS) paths are re-executed concretely outside the engine
 
 
 def load_known(pid: str):
@@ -218,8 +219,8 @@ def run_check(pid: str, tier: str, jobs: List[Job], functions: List[str], assump
         validated = 0
         mod = importlib.import_module(job.module)
         fn = getattr(mod, job.name)
-        step = max(1, len(r["samples"]) // 12)
-        for s in r["samples"][::step][:12]:
+        step = max(1, len(r["samples"]) // job.validate_limit)
+        for s in r["samples"][::step][:job.validate_limit]:
             v, d = chx.run_concrete(fn, s)
             if v == "PASS":
                 validated += 1
